@@ -12,7 +12,11 @@ EXTENDS Integers, Sequences, FiniteSets, TLC, Json
 CONSTANT Tier   \* "quick" | "thorough"
 
 Wrapped == {"bare", "p2sh", "p2wsh", "p2sh-p2wsh"}
-Plain == {"p2wpkh", "p2sh-p2wpkh", "witv1", "witv0bad", "p2sh19", "p2sh-witv1"}
+\* witv1-40 / witv0-40: 40-byte program (script of exactly 42 bytes, the upper bound of a witness program);
+\* witv1-2: 2-byte program (4 bytes, the lower bound); wit41: OP_1 <41 bytes> (43 bytes: NOT a witness program);
+\* witv16: version 16
+Plain == {"p2wpkh", "p2sh-p2wpkh", "witv1", "witv0bad", "p2sh19", "p2sh-witv1",
+          "witv1-40", "witv0-40", "witv1-2", "wit41", "witv16", "wit1"}
 Leaves == IF Tier = "quick" THEN {"true", "p2pk", "p2pkh", "multisig", "big", "ifnm"}
           ELSE {"true", "false", "p2pk", "p2pku", "p2pkh", "multisig", "multisig2of3", "big", "big10001", "ifnm", "cltv"}
 SigKinds == {"canon", "nop", "extra", "pd1", "badsig"}
@@ -31,7 +35,8 @@ FlagSets == IF Tier = "quick"
            /\ ("MINIMALIF" \in f <=> "WITNESS_PUBKEYTYPE" \in f)     \* keep the product manageable
            /\ ("NULLFAIL" \in f <=> "MINIMALDATA" \in f) }
 
-IsWitnessKind(pk) == pk \in {"p2wsh", "p2sh-p2wsh", "p2wpkh", "p2sh-p2wpkh", "witv1", "witv0bad", "p2sh-witv1"}
+IsWitnessKind(pk) == pk \in {"p2wsh", "p2sh-p2wsh", "p2wpkh", "p2sh-p2wpkh", "witv1", "witv0bad", "p2sh-witv1",
+                             "witv1-40", "witv0-40", "witv1-2", "witv16"}
 HasRedeemPush(pk) == pk \in {"p2sh", "p2sh-p2wsh", "p2sh-p2wpkh", "p2sh-witv1"}
 
 Valid(s) ==
